@@ -207,7 +207,7 @@ class Protocol(metaclass=InlineDocstring):
         """
         files = []
         yours = dict(iter(self))
-        theirs = proto_to_files(proto())
+        theirs = list(proto)
 
         for filename, their_text in theirs:
             patch = make_patch(
@@ -228,7 +228,7 @@ class Protocol(metaclass=InlineDocstring):
         """
         files = []
         yours = dict(iter(self))
-        diff = proto_to_files(patch())
+        diff = list(patch)
 
         for filename, diff_text in diff:
             text = yours.get(filename, '')
